@@ -9,10 +9,15 @@
   c28 <fld> commit <N> <kind> <ncols> <k> <blowup> <np> <rate> <seed> commit_to_rows (test hasher)
   c28 <fld> real <hasher> <N> <kind> <ncols> <k> <blowup> <np> <rate> <seed>   prover digest rule =
                                                                       verifier digest rule + layout
+  c28 <fld> dom <k> <deg> <blowup>                                    StarkDomain::new(air) accessors
+  c28 <fld> airover <N> <kind> <ncols> <k> <deg> <blowup> <seed> <rows>   evaluate_polys_over on
+  c28 <fld> aircols <kind> <ncols> <k> <deg> <blowup> <seed> <rows>       / evaluate_columns_over on
+                                  StarkDomain::new(air), air = one transition constraint of degree
+                                  <deg>, trace length 2^k, LDE blowup <blowup>, offset GENERATOR
   c28 po <np> <rate> <degree> <cols>                                  partition_size, num_partitions
   c28 e2e …                                                           honest prove + verify with the
                                                                       given partition options: `ok`
-<fld> = f64 | f128 | f64x2.  Columns are generated from `<seed>` (column `j` from
+<fld> = f64 | f128 | f64x2 | f64x3.  Columns are generated from `<seed>` (column `j` from
 `seed + j·0x9E3779B97F4A7C15`): kind 0 dense LCG, 1 sparse (leading `seed_j mod (n+1)` coefficients,
 possibly the zero polynomial), 2 boundary values (0, 1, p−1, (p−1)/2).  `<rows>` = comma list of row
 indices printed in full (`-` none).  Matrix answer: `<rows>x<cols>:w<row_width>:<row>/<row>…:h<fnv>`
@@ -32,6 +37,10 @@ def lF64 : LField (BitVec 64) (BitVec 64) := ⟨fftF64, ExtView.base F64.zero, p
 def lF128 : LField (BitVec 128) (BitVec 128) := ⟨fftF128, ExtView.base F128.baseOps.zero, paramsF128⟩
 def lF64x2 : LField (BitVec 64) (BitVec 64 × BitVec 64) :=
   ⟨fftF64x2, ⟨2, fun e => [e.1, e.2], fun l => (l.getD 0 F64.zero, l.getD 1 F64.zero)⟩, paramsF64⟩
+
+def lF64x3 : LField (BitVec 64) (BitVec 64 × BitVec 64 × BitVec 64) :=
+  ⟨fftF64x3, ⟨3, fun e => [e.1, e.2.1, e.2.2],
+    fun l => (l.getD 0 F64.zero, l.getD 1 F64.zero, l.getD 2 F64.zero)⟩, paramsF64⟩
 
 /-! ### column generation (shared with `harness/src/c28.rs`) -/
 
@@ -153,6 +162,23 @@ def runLde {B E} (l : LField B E) (op : String) (args : List String) : Option St
     let blowup ← blowup.toNat?; let s ← s.toNat?; let seed ← seed.toNat?; let sel ← parseSel rows
     let polys := genMatrix l kind ncols (2 ^ k) seed
     pure (showColMatrix l sel ((domainOf l (2 ^ k) blowup s).bind (evaluateColumnsOver c polys)))
+  | "dom", some [k, deg, blowup], _ =>
+    some (match starkDomainOfAir c (2 ^ k) [⟨deg, []⟩] blowup gen with
+      | none => "abort"
+      | some d =>
+        s!"tl={d.traceLength} ce={d.ceDomainSize} lde={d.ldeDomainSize} t2c={d.traceToCeBlowup} t2l={d.traceToLdeBlowup} c2l={d.ceToLdeBlowup} off={showElem (l.f.vb.toCanon d.offset)}")
+  | "airover", _, [nN, kind, ncols, k, deg, blowup, seed, rows] => do
+    let nN ← nN.toNat?; let kind ← kind.toNat?; let ncols ← ncols.toNat?; let k ← k.toNat?
+    let deg ← deg.toNat?; let blowup ← blowup.toNat?; let seed ← seed.toNat?; let sel ← parseSel rows
+    let polys := genMatrix l kind ncols (2 ^ k) seed
+    pure (showRowMatrix l sel ((starkDomainOfAir c (2 ^ k) [⟨deg, []⟩] blowup gen).bind
+      (fun d => evaluatePolysOver c l.x nN polys d.toDomain)))
+  | "aircols", _, [kind, ncols, k, deg, blowup, seed, rows] => do
+    let kind ← kind.toNat?; let ncols ← ncols.toNat?; let k ← k.toNat?
+    let deg ← deg.toNat?; let blowup ← blowup.toNat?; let seed ← seed.toNat?; let sel ← parseSel rows
+    let polys := genMatrix l kind ncols (2 ^ k) seed
+    pure (showColMatrix l sel ((starkDomainOfAir c (2 ^ k) [⟨deg, []⟩] blowup gen).bind
+      (fun d => evaluateColumnsOver c polys d.toDomain)))
   | "interp", _, [kind, ncols, k, seed, rows] => do
     let kind ← kind.toNat?; let ncols ← ncols.toNat?; let k ← k.toNat?
     let seed ← seed.toNat?; let sel ← parseSel rows
@@ -207,6 +233,7 @@ def handle : List String → String
       | "f64" => runLde lF64 op args
       | "f128" => runLde lF128 op args
       | "f64x2" => runLde lF64x2 op args
+      | "f64x3" => runLde lF64x3 op args
       | _ => none
     r.getD "bad-op"
   | _ => "bad-op"
